@@ -1,5 +1,48 @@
-import Aiortc.Model.Sctp.Endpoint
-/-! # C05 (placeholder while the theorems are being written) -/
+import Aiortc.Lemmas.SctpTotal
+/-!
+# C05 — no received datagram can crash, hang or wedge the receive path
+
+The theorems of this property live in three files (all three are audited by the check):
+* `Props/C05.lean` (this file): totality of the SCTP wire parsers, restated from `Lemmas/SctpTotal.lean`;
+* `Props/C05Sctp.lean`: the SCTP endpoint automaton never raises and never hangs on any datagram
+  (`rx_never_crashes_proved`, `rx_no_hang`, invariant preservation, work bounds);
+* `Props/C05Rtp.lean`: totality of the RTP / RTCP / header-extension / REMB / H.264 / VP8 parsers
+  (`parsers_total`) and of the dispatch around them (`recv_next_total`, `still_alive`).
+-/
 namespace Aiortc.Props.C05
+open Aiortc Aiortc.Sctp.Wire
+
 theorem minimum_length_const : Aiortc.Gen.SCTP_PACKET_MINIMUM_LENGTH = 16 := by decide
+
+/-- `parse_packet(data)` returns or raises `ValueError`, for EVERY byte string: never `struct.error`,
+never a non-terminating loop. -/
+theorem sctp_parse_packet_total (d : Bytes) :
+    (∃ r, parsePacket d = .ok r) ∨ parsePacket d = .valueError := by
+  have h := parsePacket_benign d
+  cases hp : parsePacket d with
+  | ok r => exact Or.inl ⟨r, rfl⟩
+  | valueError => exact Or.inr rfl
+  | crash k => rw [hp] at h; exact absurd h (by simp [Benign])
+  | hang => rw [hp] at h; exact absurd h (by simp [Benign])
+
+/-- `decode_params(body)` likewise (the zero-length parameter no longer loops). -/
+theorem sctp_decode_params_total (b : Bytes) :
+    (∃ r, decodeParams b = .ok r) ∨ decodeParams b = .valueError := by
+  have h := decodeParams_benign b
+  cases hp : decodeParams b with
+  | ok r => exact Or.inl ⟨r, rfl⟩
+  | valueError => exact Or.inr rfl
+  | crash k => rw [hp] at h; exact absurd h (by simp [Benign])
+  | hang => rw [hp] at h; exact absurd h (by simp [Benign])
+
+/-- The three RE-CONFIG parameter parsers likewise. -/
+theorem sctp_reconfig_parse_total (cls : RcCls) (data : Bytes) :
+    (∃ r, RcParam.parse cls data = .ok r) ∨ RcParam.parse cls data = .valueError := by
+  have h := rcParse_benign cls data
+  cases hp : RcParam.parse cls data with
+  | ok r => exact Or.inl ⟨r, rfl⟩
+  | valueError => exact Or.inr rfl
+  | crash k => rw [hp] at h; exact absurd h (by simp [Benign])
+  | hang => rw [hp] at h; exact absurd h (by simp [Benign])
+
 end Aiortc.Props.C05
